@@ -134,7 +134,13 @@ func (v *defaultValidator) dumpDefaultValue(out *codegen.Emitter) any {
 
 			namedFields += "\n"
 
-			return fmt.Sprintf(`%s{%s}`, nt.Decl.GetName(), namedFields)
+			typeName := nt.Decl.GetName()
+			if nt.Package != nil {
+				// A type of another generated package is named through that package.
+				typeName = nt.Package.Name() + "." + typeName
+			}
+
+			return fmt.Sprintf(`%s{%s}`, typeName, namedFields)
 		}
 	}
 
